@@ -51,6 +51,18 @@ class Cmp:
     def strip(self, items):
         return [x for x in items if x["k"] not in ("push", "pop")]
 
+    def end_ok(self, end, line, what):
+        """which end a remaining-length / loop bound is measured to.  Outside a decompressed buffer it must be the message's own end
+        (offset_packet_end): the buffer the cursor walks is the TCP segment and may hold further messages.  Inside a decompressed buffer
+        (a fresh tvb that starts at 0) it must be that buffer's end: the outer packet's end offset means nothing there."""
+        if self.in_zlib:
+            if end == "offset_packet_end":
+                raise Mismatch(f"line {line}: {what} is measured to `offset_packet_end`, an offset in the outer packet, although the cursor walks the decompressed buffer (which starts at 0): "
+                               "the length is wrong by the position of the message in the segment")
+        elif end != "offset_packet_end":
+            raise Mismatch(f"line {line}: {what} is measured to the end of the buffer ({end}), not to the end of the message: when another message follows in the same segment "
+                           "the walk runs on into it")
+
     def take(self, cs, what):
         if not cs:
             raise Mismatch(f"the fragment ends where the definition still has {what}")
@@ -149,10 +161,16 @@ class Cmp:
             return
         if k == "optional":
             c = self.take(cs, "the optional tail")
-            if c["k"] != "len=":
-                raise Mismatch(f"line {c['line']}: optional `{it['name']}` must start with the remaining-length computation")
-            c = self.take(cs, "the optional tail")
-            if c["k"] != "if" or c["arms"][0][0] != [("len>0",)] or len(c["arms"]) != 1 or c["else"]:
+            if c["k"] == "if" and c["arms"][0][0] == [("rem>0",)]:
+                self.end_ok("buffer_end", c["line"], f"the presence test of optional `{it['name']}`")
+            else:
+                if c["k"] != "len=":
+                    raise Mismatch(f"line {c['line']}: optional `{it['name']}` must start with the remaining-length computation")
+                self.end_ok(c.get("end"), c["line"], f"the presence test of optional `{it['name']}`")
+                c = self.take(cs, "the optional tail")
+                if c["k"] != "if" or c["arms"][0][0] != [("len>0",)]:
+                    raise Mismatch(f"line {c['line']}: optional `{it['name']}` is not guarded by `if (len > 0)`")
+            if len(c["arms"]) != 1 or c["else"]:
                 raise Mismatch(f"line {c['line']}: optional `{it['name']}` is not guarded by `if (len > 0)`")
             inner = self.strip(c["arms"][0][1])
             self.seq(it["items"], inner, self.vars_used(it["items"]))
@@ -222,6 +240,7 @@ class Cmp:
                 c = self.take(cs, f"`{name}`")
                 if c["k"] != "len=":
                     raise Mismatch(f"line {c['line']}: endless byte array `{name}` needs the remaining length")
+                self.end_ok(c.get("end"), c["line"], f"the length of the endless byte array `{name}`")
                 c = self.take(cs, f"`{name}`")
                 self.expect_add(c, "len", None, name, None)
             elif cnt[0] == "fixed":
@@ -266,8 +285,9 @@ class Cmp:
                                "after the first element the bound is the remaining length of an inner array, so the loop ends early and the remaining elements are never walked")
         if cnt[0] == "endless":
             want_end = "compression_end" if self.in_zlib else "offset_packet_end"
-            if c["k"] != "while" or c["end"] != want_end:
+            if c["k"] != "while":
                 raise Mismatch(f"line {c['line']}: endless array `{name}` must loop until {want_end}")
+            self.end_ok(c["end"], c["line"], f"the loop over the endless array `{name}`")
         else:
             if c["k"] != "for":
                 raise Mismatch(f"line {c['line']}: array `{name}` is not walked by a counted loop (found {c['k']})")
